@@ -13,7 +13,7 @@ Open Scope N_scope.
    bytes do not depend on that, but the scanner theorem it rests on is stated for it.) *)
 Theorem C08_exact : forall max c pkts, sc_skip c = false -> Forall wf_pkt pkts ->
   written max c (serialize pkts) = serialize (filter (pmatch c) pkts).
-Proof. exact (c08_exact_when Gen.Facts.cdp_offset_sampled_after eq_refl). Qed.
+Proof. exact (c08_exact_when Gen.Facts.cdp_offset_sampled_after Gen.Facts.batch_kept_on_invalid_input eq_refl). Qed.
 
 (* re-serialising a parsed header reproduces its 64 bytes: all 2^512 values *)
 Theorem C08_roundtrip : forall b, rdh_bytes_ok b -> encode_rdh (decode_rdh b) = b.
@@ -28,10 +28,10 @@ Theorem C08_idempotent : forall max c pkts, sc_skip c = false -> Forall wf_pkt p
   written max c (written max c (serialize pkts)) = written max c (serialize pkts).
 Proof.
   exact (fun max c pkts Hs Hwf =>
-    eq_trans (f_equal (written max c) (c08_exact_when _ eq_refl max c pkts Hs Hwf))
-      (eq_trans (c08_exact_when Gen.Facts.cdp_offset_sampled_after eq_refl max c _ Hs (c08_wellframed c pkts Hwf))
+    eq_trans (f_equal (written max c) (c08_exact_when _ _ eq_refl max c pkts Hs Hwf))
+      (eq_trans (c08_exact_when Gen.Facts.cdp_offset_sampled_after Gen.Facts.batch_kept_on_invalid_input eq_refl max c _ Hs (c08_wellframed c pkts Hwf))
          (eq_trans (f_equal serialize (filter_idem (pmatch c) pkts))
-                   (eq_sym (c08_exact_when _ eq_refl max c pkts Hs Hwf))))).
+                   (eq_sym (c08_exact_when _ _ eq_refl max c pkts Hs Hwf))))).
 Qed.
 
 (* partition: over the distinct values of the filter key (link id, FEE id, layer/stave bits) the
